@@ -45,19 +45,17 @@
    deferred-wrap flag only on the last column, hence related by [emu_rel] to the resized
    reference terminal [ref_resized] - whose cells are all DPoison, so the cell clause is
    vacuous ([cell_rel DPoison = True], used in the proof, not assumed) and which is one of the
-   terminals C01's [resized] allows - EXCEPT for one clause that genuinely fails: the pen.
-   resize leaves the style of the last re-printed cell in the pen ([C12_resize_pen]: the last
-   cell of the row above the cursor on the old primary screen).  The precise, decidable
-   hypothesis is [resize_pen_ok t]: that style shows what the pen showed.  For a Vaxis
-   application it is a theorem: Vaxis runs on the alternate screen (mode 1049), its tokens
-   never touch the primary screen ([keeps_prim], now part of the simulation theorem), and if
-   the primary screen underneath is in the default style ([alt_plainb] of the start state)
-   the pen stays default through every resize ([C12_resize_alt]).  So
-   [C12_app_in_term_resize] quantifies only over content ([content_ok], [wire_ok], [size_ok])
-   and decidable facts about the start state; [C12_app_in_term_resize_any] is the form for
-   any start state with [resize_pen_ok] evaluated at every resize.  [C12_resize_pen_needed]:
-   over a primary screen with coloured text the hypothesis fails and the repaint after the
-   resize comes out in that colour (proposed finding resize-pen-leak, see the report).
+   terminals C01's [resized] allows.  The pen clause holds because resize restores the pen:
+   before fix 63dc3f8 (found through this property: finding resize-pen-leak, fixed) resize left
+   the style of the last re-printed cell in the pen; [resize_leaky] is that resize,
+   [C12_resize_pen] says which style it left (the last cell of the row above the cursor on the
+   old primary screen) and [C12_resize_pen_needed] shows the repaint after it coming out in the
+   colour of old shell output - and correctly after T.resize.  So [C12_app_in_term_resize_any]
+   holds from ANY well-formed start state in Vaxis' modes with the default pen and the cursor
+   hidden ([start_ok]) - primary or alternate screen, whatever is underneath - and quantifies
+   only over content ([content_ok], [wire_ok], [size_ok]); [C12_app_in_term_resize] (start
+   state on the alternate screen over a default primary screen) and [C12_resize_alt] (that
+   situation survives every token - [keeps_prim] - and every resize) are kept.
 
    [enc_tok] is now tied to the parser model of C02 ([C12_token_on_the_wire],
    [C12_tokens_on_the_wire], proofs/EmuWireParse.v): for every token of the vocabulary the
@@ -198,19 +196,17 @@ Print Assumptions C12_app_in_term_full.
    and related to the resized reference terminal [ref_resized r t2] (new size, every cell
    unknown, cursor wherever the emulator has it, pen / hyperlink / DECTCEM / shape / mode 2026
    / pointer shape as before), which is one of the terminals C01's history theorem allows after
-   a size change ([resized]).  One hypothesis, decidable, on the state before the resize:
-   [resize_pen_ok] - the pen the resize leaves shows what the pen showed *)
+   a size change ([resized]).  No hypothesis on the state is left: the pen is restored *)
 Theorem C12_resize_keeps_relation : forall e w h (t : T.term) (r : term) w2 h2,
   TermProofs.WFs0 e w h t -> vaxis_modes t = true -> emu_rel t r -> 1 <= w2 -> 1 <= h2 ->
-  resize_pen_ok t = true ->
   exists t2, T.resize t w2 h2 = T.TOk t2 /\ TermProofs.WFs0 e w2 h2 t2 /\ vaxis_modes t2 = true /\
     emu_rel t2 (ref_resized r t2) /\ resized r (ref_resized r t2) h2 w2.
 Proof. exact resize_rel. Qed.
 Print Assumptions C12_resize_keeps_relation.
 
-(* which pen that is: the style of the last cell of the row above the cursor on the old
-   PRIMARY screen (the pen itself when the cursor is on the first row) - so the clause of
-   emu_rel that a resize can break is exactly the pen *)
+(* the resize before fix 63dc3f8 ([resize_leaky]: no restore) left [resize_pen] in the pen
+   ([C12_resize_leaky_pen]), that is: the style of the last cell of the row above the cursor on
+   the old PRIMARY screen (the pen itself when the cursor is on the first row) *)
 Theorem C12_resize_pen : forall e w h (t : T.term), TermProofs.WFs0 e w h t ->
   resize_pen t = if T.t_row t =? 0 then T.t_pen t
                  else match gget (T.t_prim t) (T.t_row t - 1) (w - 1) with
@@ -220,9 +216,17 @@ Theorem C12_resize_pen : forall e w h (t : T.term), TermProofs.WFs0 e w h t ->
 Proof. exact resize_pen_closed. Qed.
 Print Assumptions C12_resize_pen.
 
-(* for a Vaxis application the hypothesis is a theorem: on the alternate screen (mode 1049)
-   over a primary screen in the default style, with the default pen (as every frame leaves
-   it), the resize re-establishes everything, including that situation *)
+Theorem C12_resize_leaky_pen : forall e w h (t : T.term) w2 h2,
+  TermProofs.WFs0 e w h t -> vaxis_modes t = true -> 1 <= w2 -> 1 <= h2 ->
+  exists t2, resize_leaky t w2 h2 = T.TOk t2 /\ T.t_pen t2 = resize_pen t.
+Proof.
+  intros e w h t w2 h2 W M Hw Hh.
+  exact (resize_leaky_pen (fun _ => True) ltac:(auto) I e w h t w2 h2 W M Hw Hh (all_true _) I).
+Qed.
+Print Assumptions C12_resize_leaky_pen.
+
+(* on the alternate screen (mode 1049) over a primary screen in the default style, with the
+   default pen (as every frame leaves it), the resize also re-establishes that situation *)
 Theorem C12_resize_alt : forall e w h (t : T.term) (r : term) w2 h2,
   TermProofs.WFs0 e w h t -> vaxis_modes t = true -> emu_rel t r -> 1 <= w2 -> 1 <= h2 ->
   tm_pen r = tpen0 -> tm_link r = ([], []) -> alt_plain t ->
@@ -245,12 +249,12 @@ Theorem C12_app_in_term_resize : forall tw measure rows cols (t0 : T.term) e (fs
 Proof. exact app_in_term_resize. Qed.
 Print Assumptions C12_app_in_term_resize.
 
-(* any start state (also the primary screen, also a primary screen with styled text underneath):
-   at every size change the decidable hypothesis resize_pen_ok on the emulator state *)
+(* any start state (also the primary screen, also a primary screen with styled text
+   underneath): nothing is asked at a size change *)
 Theorem C12_app_in_term_resize_any : forall tw measure rows cols (t0 : T.term) e (fs : list frame),
   1 <= rows -> 1 <= cols -> size_ok rows cols ->
   TermProofs.WFs0 e cols rows t0 -> vaxis_modes t0 = true -> start_ok t0 = true ->
-  emu_history_resize (fun t => resize_pen_ok t = true) tw measure (vinit term_caps rows cols) rows cols t0 fs.
+  emu_history_resize (fun _ => True) tw measure (vinit term_caps rows cols) rows cols t0 fs.
 Proof. exact app_in_term_resize_any. Qed.
 Print Assumptions C12_app_in_term_resize_any.
 
@@ -284,11 +288,12 @@ Proof.
   destruct (do_frame s ops FRender) as [s' o]. reflexivity.
 Qed.
 
-(* the hypothesis resize_pen_ok is not gratuitous (proposed finding resize-pen-leak): an
-   emulator that showed a line of text on red before the application started; the application
-   draws, the window is resized, the application repaints an 'a' in the default style - the
-   hypothesis fails at the resize, and the emulator model shows the 'a' (and the whole
-   repainted screen) on red *)
+(* why resize has to restore the pen (finding resize-pen-leak, fixed by 63dc3f8): an emulator
+   that showed a line of text on red before the application started; the application draws,
+   the window is resized, the application repaints an 'a' in the default style.  With the
+   resize as it was ([resize_leaky]) the pen it left does not show what the pen showed and the
+   emulator model shows the 'a' (and the whole repainted screen) on red; with T.resize the
+   repaint is right *)
 Example C12_resize_pen_needed :
   let tw := lookup_w [([97], 1); ([], 0)] in
   let a := {| c_g := [97]; c_w := 0; c_mw := 1; c_st := style0; c_sixel := false |} in
@@ -299,14 +304,14 @@ Example C12_resize_pen_needed :
   let s0 := vinit term_caps 2 3 in
   let f1 := do_frame s0 [OSet 0 0 a; OShowCursor 0 1 0] FRender in
   let t1 := get (emu_toks tw dirty (snd f1)) in
-  let t2 := get (T.resize t1 4 2) in
   let s2 := do_resize (fst f1) 2 4 in
   let f3 := do_frame s2 [OSet 0 0 a] FRender in
-  let t3 := get (emu_toks tw t2 (snd f3)) in
+  let shows t2 := grid_shows term_caps (v_next (fold_left apply_op [OSet 0 0 a] s2)) (grid_of (get (emu_toks tw t2 (snd f3)))) in
   vaxis_modes dirty = true /\ start_ok dirty = true /\ alt_plainb dirty = false /\
   grid_shows term_caps (v_next (fold_left apply_op [OSet 0 0 a; OShowCursor 0 1 0] s0)) (grid_of t1) = true /\
   resize_pen_ok t1 = false /\
-  grid_shows term_caps (v_next (fold_left apply_op [OSet 0 0 a] s2)) (grid_of t3) = false.
+  shows (get (resize_leaky t1 4 2)) = false /\
+  shows (get (T.resize t1 4 2)) = true.
 Proof. vm_compute. repeat split. Qed.
 
 (* ---------------------------------------------------------------- B. enc_tok against the parser model *)
